@@ -13,7 +13,10 @@ BLANKS = [" ", "\t", "\n", "\r\n", "\f", "  \n\t ", " \f\n", "\n\n\n"]
 COMMENTS = ["/* c */", "/**/", "// c\n", "// a\rb\n", "//\n", " /* a */ // b\n ", "/* * / \n */", "// `not_a_macro \"\n", "/* é */",
             "/*/ c */", "/*/*/", "/*//////*/", "/***/", "/* /* */", "/*\\*/", "// c \\\n", "//*/\n"]
 DIRECTIVES = ["`celldefine\n", "`endcelldefine ", "`default_nettype none\n", "`timescale 1ns/1ps\n", "`unconnected_drive pull0 ",
-              "`nounconnected_drive\n", "`line 5 \"f.v\" 0\n", "`define TRIV 1\n", "`undef TRIV\n"]
+              "`nounconnected_drive\n", "`line 5 \"f.v\" 0\n", "`define TRIV 1\n", "`undef TRIV\n",
+              # definitions continued over line breaks of every style, with formals and defaults laid out loosely
+              "`define TRIV2 (1 \\\n + 2)\n", "`define TRIV3 (1 \\\r\n + 2)\r\n", "`define TRIV4(a = 1 , b) a \\\r\n b \\\n c\n",
+              "`timescale 1ns / 1ps\r\n", "`default_nettype wire\r\n", "`define TRIV6 \"s\" \\\r\n \"t\"\r\n"]
 
 
 def trivia(r):
